@@ -47,10 +47,10 @@ impl World for Storage {
             ("C10", Tier::Thorough) => 4_000_000,
             ("C13", Tier::Quick) => 8_000,
             ("C13", Tier::Thorough) => 600_000,
-            ("C09", Tier::Quick) => 3_000,
-            ("C09", Tier::Thorough) => 200_000,
-            (_, Tier::Quick) => 400,
-            (_, Tier::Thorough) => 20_000,
+            ("C09", Tier::Quick) => 800,
+            ("C09", Tier::Thorough) => 40_000,
+            (_, Tier::Quick) => 160,
+            (_, Tier::Thorough) => 6_000,
         }
     }
     fn nontrivial_min_ops(&self, _prop: &str) -> u64 {
